@@ -42,6 +42,9 @@ CHECKS["C05"] = ("two-phase metamorphic property-based testing (proptest): reque
 CHECKS["C10"] = ("two-phase differential property-based testing (proptest): the same run with and without the terminal flags (twin), bit-identical prefix",
          "Event roots placed relative to the step grid (several functions in one step, either order), occurrence counts 1..3, with/without t_eval and dense output; the twin run without terminal flags defines where the run must stop and what must have been reported before.",
          "Ties of two terminal functions at the same instant skipped.", "DESIGN.md §4 C10")
+CHECKS["C04"] = ("property-based testing with fault injection (proptest): pathological right-hand sides and injected NaN/inf under a deterministic evaluation budget",
+         "Generated blow-up / stiff / discontinuous problems and benign problems whose right-hand side turns non-finite at a generated time, through an instrumented IVP that aborts the run after 2e6 evaluations: termination is decided by a deterministic work count, panics are caught, Success with non-finite states is rejected.",
+         "Budget 2e6 evaluations vs <=1.2e5 observed; RK4 only required to terminate.", "DESIGN.md §4 C04")
 PENDING = {}
 
 def main():
